@@ -350,13 +350,13 @@ def obligations(tier):
                      witness_rule=lambda m: any(v == 0 for k, v in m.items() if k.startswith("o"))))
     # resumed runs: Plan.execute(resume=True) flags every node; the executor must still order what is left to run
     rcombos = [("chain-unequal", 0, True, None, 30, 40, 10, 2), ("chain-unequal", 0, False, None, 30, 40, 8, 2), ("diamond", 0, True, None, 30, 40, 12, 0),
-               ("multi-output", 0, True, None, 30, 40, 12, 1)]
+               ("multi-output", 0, True, None, 30, 40, 12, 0)]
     if tier != "quick":
         rcombos = [(dn, opt, par, bs, 40, 60, 14, 2) for dn in ("chain-unequal", "diamond", "independent", "multi-output", "rechunk-then-add") for opt in (0, 1)
                    for par in (False, True) for bs in (None, 2)]
     for dn, opt, par, bs, n_o, n_d, n_p, mr in rcombos:
         o.append(Obl(f"barrier-resume[{dn},optimize={opt},parallel={int(par)},batch={bs}]", make(dn, opt, par, bs, False, n_o, n_d, n_p, max_running=mr, n_resume=6),
-                     vars_(n_o, n_d, n_p) + [(f"s{k}", 0, 1) for k in range(6)], setup=setup, functions=fns + [cp.FinalizedPlan.execute, cp.already_computed], wall_s=wall,
+                     vars_(n_o, n_d, n_p) + [(f"s{k}", 0, 1) for k in range(6)], setup=setup, functions=fns + [cp.FinalizedPlan.execute, cp.already_computed], wall_s=max(wall, 900),
                      bounds=f"as barrier[...] on plan '{dn}', with every subset of its operations flagged as already computed the way Plan.execute(resume=True) flags them "
                             "(array nodes flagged too); the barrier is required among the operations left to run",
                      outside="which subsets a real interrupted run can leave behind (all subsets are taken)", stubs=["sched.ShimAsyncio", "sched.ShimTime", "sched.ShimStream"],
